@@ -142,6 +142,20 @@ FillArea(r) == LET p == Poly(r)  n == Len(p) IN
 \* duplicated cells removed: the same cells as the parent (as sets of corner coordinates), each once
 CellKeys(m) == {{P(m, c, a) : a \in 1..NCorner(m.type)} : c \in Cells(m)}
 CellSetPreserved(r) == Len(r.child.cells) = Len(r.parents[1].cells) /\ CellKeys(r.child) = CellKeys(r.parents[1])
+\* ... and, for the quadratic cell types, each inserted point sits at ITS place in the connectivity (VTK order: edge mid-points in
+\* edge order, then the face mid-points x-min, x-max, y-min, y-max, z-min, z-max, then the cell mid-point)
+HexEdges == << {1, 2}, {2, 3}, {3, 4}, {4, 1}, {5, 6}, {6, 7}, {7, 8}, {8, 5}, {1, 5}, {2, 6}, {3, 7}, {4, 8} >>
+Placed(t) == CASE t = "quad8" -> << {1, 2}, {2, 3}, {3, 4}, {4, 1} >>
+               [] t = "quad9" -> << {1, 2}, {2, 3}, {3, 4}, {4, 1}, {1, 2, 3, 4} >>
+               [] t = "triangle6" -> << {1, 2}, {2, 3}, {3, 1} >>
+               [] t = "tetra10" -> << {1, 2}, {2, 3}, {3, 1}, {1, 4}, {2, 4}, {3, 4} >>
+               [] t = "hexahedron20" -> HexEdges
+               [] t = "hexahedron27" -> HexEdges \o << {1, 5, 8, 4}, {2, 3, 7, 6}, {1, 2, 6, 5}, {3, 4, 8, 7}, {1, 2, 3, 4}, {5, 6, 7, 8}, 1..8 >>
+               [] OTHER -> << >>
+MidpointsInPlace(r) ==
+  LET m == r.child  nc == NCorner(m.type)  tab == Placed(m.type) IN
+  \A c \in Cells(m) : \A k \in 1..Len(tab) :
+     nc + k <= Len(m.cells[c]) /\ Scaled(P(m, c, nc + k), Cardinality(tab[k])) = SumPts(m, c, tab[k])
 \* disconnect: every cell owns its points
 CellsOwnPoints(r) == LET m == r.child IN
                      /\ Len(m.pts) = SumOver(Cells(m), LAMBDA c : Len(m.cells[c]))
@@ -170,6 +184,7 @@ Clauses(r) ==
     [] r.op = "revolve" -> If(OffAxis(r) /\ GO(r), {"PositiveOrientation", "RevolveVolume", "FacesAtMostTwice"}
                                                    \cup If(GU(r), {"NoUnusedPoints"}) \cup If(GD(r), {"NoDuplicatePoints"}))
     [] r.op = "midpoints" -> {"CornersUnmoved", "VolumePreserved"} \cup If(GO(r), {"PositiveOrientation", "MidpointsAreCentroids"})
+                             \cup If(Placed(r.child.type) # << >>, {"MidpointsInPlace"})
                              \cup If(GU(r), {"NoUnusedPoints"})
     [] r.op \in {"concatenate", "stack"} -> {"VolumePreserved"} \cup If(GO(r), {"PositiveOrientation"})
     [] r.op = "disconnect" -> {"CornersUnmoved", "CellsOwnPoints", "VolumePreserved"} \cup If(GO(r), {"PositiveOrientation"})
@@ -187,7 +202,7 @@ Holds(c, r) ==
     [] c = "VolumePreserved" -> VolumePreserved(r) [] c = "SameMesh" -> SameMesh(r) [] c = "FlipInverts" -> FlipInverts(r)
     [] c = "ExpandVolume" -> ExpandVolume(r) [] c = "RevolveVolume" -> RevolveVolume(r)
     [] c = "CornersUnmoved" -> CornersUnmoved(r) [] c = "MidpointsAreCentroids" -> MidpointsAreCentroids(r)
-    [] c = "CellsOwnPoints" -> CellsOwnPoints(r) [] c = "CellCentroids" -> CellCentroids(r)
+    [] c = "CellsOwnPoints" -> CellsOwnPoints(r) [] c = "CellCentroids" -> CellCentroids(r) [] c = "MidpointsInPlace" -> MidpointsInPlace(r)
     [] c = "FillArea" -> FillArea(r) [] c = "CellSetPreserved" -> CellSetPreserved(r)
     [] c = "OnLattice" -> FALSE
 Applicable(r) == Clauses(r)
